@@ -328,3 +328,28 @@ func HSqlNearTotal(i int, sep int) {
 	IsSQLi(s)
 	vCover("done")
 }
+
+// HBenignOne: a sentence of k items separated by single spaces in which exactly one item (index pos) is a free
+// identifier of wl bytes (not a component of any keyword-table key) and the others are the fixed fillers "7"
+// (bit set in numMask) or "zq". One free word keeps the keyword look-ups of a single token symbolic, so word
+// lengths beyond HBenign's reach are decided (look-up implementations that fold or pack characters).
+func HBenignOne(k int, numMask int, pos int, wl int) {
+	s := ""
+	for i := 0; i < k; i++ {
+		if i > 0 {
+			s += " "
+		}
+		if i == pos {
+			s += vIdent(wl)
+		} else if numMask&(1<<uint(i)) != 0 {
+			s += "7"
+		} else {
+			s += "zq"
+		}
+	}
+	ok, fp := IsSQLi(s)
+	vAssert(!ok, "plain words and numbers are not SQLi")
+	vAssert(fp == "", "no fingerprint for benign input")
+	vObserveStr("input", s)
+	vCover("checked")
+}
